@@ -27,7 +27,6 @@ LOOP_GROUPS = '''            invariant
 
 PARTS = [Prelude('head.rs')] + [
     Raw('''
-use std::marker::PhantomData;
 /// R5: a dependency is identified here by how it was made
 pub struct Dependency { pub name: String }
 pub uninterp spec fn user_dep(name: Seq<char>) -> Dependency;
@@ -85,10 +84,13 @@ impl PackageBuilder {
 '''),
     Block(BUILDER, 'prepare_data', impl='impl PackageBuilder', exclusive=True, keep_start=True,
           start='        for user in &users_to_create {', end='        let mut provide_names = Vec::new();',
-          subs=[('for user in &users_to_create {', 'let users_iter = users_to_create.iteration_order();\n        for user in &users_iter {', 1,
+          subs=[('let mut i_u: usize = 0;', 'let users_iter = users_to_create.iteration_order();\n        let mut i_u: usize = 0;', 1,
                  'R26-iterating a set = iterating its elements in its iteration order'),
-                ('for group in &groups_to_create {', 'let groups_iter = groups_to_create.iteration_order();\n        for group in &groups_iter {', 1,
-                 'R26-iterating a set = iterating its elements in its iteration order')],
+                ('while i_u < users_to_create.len()', 'while i_u < users_iter.len()', 1, 'R26'),
+                ('&users_to_create[i_u]', '&users_iter[i_u]', 1, 'R26'),
+                ('let mut i_g: usize = 0;', 'let groups_iter = groups_to_create.iteration_order();\n        let mut i_g: usize = 0;', 1, 'R26'),
+                ('while i_g < groups_to_create.len()', 'while i_g < groups_iter.len()', 1, 'R26'),
+                ('&groups_to_create[i_g]', '&groups_iter[i_g]', 1, 'R26')],
           index_loops={0: ('i_u', LOOP_USERS), 1: ('i_g', LOOP_GROUPS)},
           header='''    /// the recommends() entries for the non-root owners: appended in the ASCENDING order of the two sets' contents,
     /// whatever instance of the set type holds them.  Free variables: self.recommends, users_to_create, groups_to_create
